@@ -11,7 +11,7 @@ const BUDGET: u32 = 3000;
 fn c_op(kind: PKind, stacked: bool) -> u32 {
     match kind {
         PKind::Get | PKind::RoGet | PKind::Touch => if stacked { 30 } else { 20 },
-        PKind::Set | PKind::Put | PKind::Maintain | PKind::StaleSet | PKind::SetOtherFs => 60,
+        PKind::Set | PKind::Put | PKind::Maintain | PKind::StaleSet | PKind::SetOtherFs | PKind::RawPut => 60,
         PKind::Ensure | PKind::Promote | PKind::Replace => 120,
         PKind::Adversary => 10,
     }
